@@ -226,6 +226,9 @@ def run_window(flavour, auth, func, line, text, phase, intr, rnd):
             if not bad and not sc.wait_for(lambda: fx.tracked() <= live, 3):
                 bad.append(("left-behind:" + tag, "%s: %d client(s) are connected, the server's tables hold %d" % (
                     where, live, fx.tracked()), "c17"))
+            if not bad and not sc.wait_for(lambda: not fx.poll_leftovers(), 3):
+                bad.append(("poll-left-behind:" + tag, "%s: the server's poll set still holds descriptor(s) %s of departed clients" % (
+                    where, fx.poll_leftovers()), "c17"))
             if not bad:
                 try:
                     fx.server_close()
@@ -273,25 +276,39 @@ INTR_TEXT = {"close": "close() ran", "connect2": "another client connected and c
              "call_other": "another client called"}
 
 
+TRIVIAL = ("try:", "pass", "else:", "finally:", "return")
+
+# windows that are always run: the schedules TLC's counterexamples and the repaired races live in
+DIRECTED = {
+    "c17": [("accept", None, "connect", "close"), ("_accept_method", None, "connect", "close"),
+            ("_authenticate_and_serve_client", None, "connect", "close"), ("_authenticate_and_build_connection", None, "connect", "close"),
+            ("close", None, "close", "connect2"), ("_handle_poll_result", None, "leave_abrupt", "close"),
+            ("_drop_connection", None, "leave_abrupt", "close")],
+    "c16": [("_drop_connection", None, "leave_graceful", "connect2"), ("_drop_connection", None, "leave_abrupt", "connect2"),
+            ("_drop_connection", None, "bad", "connect2"), ("_serve_requests", "EOFError", "bad", "connect2"),
+            ("_serve_requests", "_drop_connection", "leave_graceful", "connect2"),
+            ("_serve_client", None, "connect", "connect2"), ("_authenticate_and_build_connection", None, "connect", "connect2"),
+            ("_handle_poll_result", None, "leave_abrupt", "connect2")],
+}
+
+
 def sweep(chk, which, pid, flavour, auth, rnd, budget):
-    """run window scenarios for one flavour; budget = max number of scenarios (None = all)"""
-    wins = discover(flavour, auth)
+    """run window scenarios for one flavour; budget = number of scenarios beyond the directed ones (None = all)"""
+    wins = [w for w in discover(flavour, auth) if w[2] not in TRIVIAL and not w[2].startswith("except")]
     scen = []
     for (f, ln, text, ph) in wins:
         for k, intr in enumerate(INTRUDERS[ph]):
             scen.append((k, f, ln, text, ph, intr))
-    # every window once with its first intruder before any window twice
-    scen.sort(key=lambda s: s[0])
-    first = [s for s in scen if s[0] == 0]
-    rest = [s for s in scen if s[0] > 0]
+    directed = []
+    for (fname, frag, ph, intr) in DIRECTED.get(which or "", []):
+        for s_ in scen:
+            if s_[1].__name__ == fname and s_[4] == ph and s_[5] == intr and (frag is None or frag in s_[3]) and s_ not in directed:
+                directed.append(s_)
+    mine = (lambda s_: (s_[5] == "close" or s_[4] == "close")) if which == "c17" else (lambda s_: not (s_[5] == "close" or s_[4] == "close"))
+    rest = [s_ for s_ in scen if s_ not in directed]
     rnd.shuffle(rest)
-    order = first + rest
-    if budget is not None and len(order) > budget:
-        if len(first) > budget:
-            rnd.shuffle(first)
-            order = first[:budget]
-        else:
-            order = order[:budget]
+    rest.sort(key=lambda s_: 0 if mine(s_) else 1)
+    order = directed + (rest if budget is None else rest[:budget])
     n_ex = 0
     for (_, f, ln, text, ph, intr) in order:
         bad, ex = run_window(flavour, auth, f, ln, text, ph, intr, rnd)
@@ -306,5 +323,5 @@ def sweep(chk, which, pid, flavour, auth, rnd, budget):
         if ex and not mine:
             chk.validated()
     chk.cov["windows_%s%s" % (flavour, "_auth" if auth else "")] = {"statement_phase_pairs": len(wins), "scenarios": len(scen),
-                                                                   "run": len(order), "window_reached": n_ex}
+                                                                   "directed": len(directed), "run": len(order), "window_reached": n_ex}
     return n_ex
